@@ -433,6 +433,8 @@ class Verdict:
 def finding_matches(f, key):
     """A finding's `match` is a dict of field -> value | list of values |
     {"min":..,"max":..} | {"mod":m,"eq":r}; all fields must match the key."""
+    if "match_any" in f:      # several input descriptions of the same defect (one per kind of check that can meet it)
+        return any(finding_matches({"match": m}, key) for m in f["match_any"])
     for k, want in f["match"].items():
         if k not in key:
             return False
